@@ -26,6 +26,8 @@ typedef struct {
   char     resolv_content[512];   /* empty: a comment only */
   char     env_res_options[128];  /* empty: variable unset */
   char     env_localdomain[128];
+  int      ndots_via;    /* 0: ARES_OPT_NDOTS; 1: "options ndots:N" in resolv.conf; 2: RES_OPTIONS */
+  int      domains_via;  /* 0: ARES_OPT_DOMAINS; 1: "search ..." in resolv.conf; 2: LOCALDOMAIN (needs ndomains > 0) */
   int      use_server_state_cb;
   int      local_bind; /* 1: ares_set_local_ip4/ip6 + ares_set_local_dev */
 } app_cfg_t;
@@ -716,6 +718,33 @@ static int app_channel_init(void)
   struct ares_socket_functions_ex sf;
 
   memset(&o, 0, sizeof(o));
+  if (app_cfg.ndots_via || (app_cfg.domains_via && app_cfg.ndomains > 0)) {
+    /* the search parameters come from the system configuration instead of the options */
+    size_t ro = strlen(app_cfg.resolv_content);
+    if (ro == 0) {
+      ro = (size_t)snprintf(app_cfg.resolv_content, sizeof(app_cfg.resolv_content), "# simnet\n");
+    }
+    if (app_cfg.domains_via == 1 && app_cfg.ndomains > 0) {
+      ro += (size_t)snprintf(app_cfg.resolv_content + ro, sizeof(app_cfg.resolv_content) - ro, "search");
+      for (i = 0; i < app_cfg.ndomains; i++) {
+        ro += (size_t)snprintf(app_cfg.resolv_content + ro, sizeof(app_cfg.resolv_content) - ro, " %s", app_cfg.domains[i]);
+      }
+      ro += (size_t)snprintf(app_cfg.resolv_content + ro, sizeof(app_cfg.resolv_content) - ro, "\n");
+    }
+    if (app_cfg.domains_via == 2 && app_cfg.ndomains > 0) {
+      size_t eo = 0;
+      for (i = 0; i < app_cfg.ndomains; i++) {
+        eo += (size_t)snprintf(app_cfg.env_localdomain + eo, sizeof(app_cfg.env_localdomain) - eo, "%s%s", i ? " " : "", app_cfg.domains[i]);
+      }
+    }
+    if (app_cfg.ndots_via == 1) {
+      ro += (size_t)snprintf(app_cfg.resolv_content + ro, sizeof(app_cfg.resolv_content) - ro, "options ndots:%d\n", app_cfg.ndots);
+    }
+    if (app_cfg.ndots_via == 2) {
+      snprintf(app_cfg.env_res_options, sizeof(app_cfg.env_res_options), "ndots:%d", app_cfg.ndots);
+    }
+    sim_note("search_parameters_from_system_configuration");
+  }
   app_write_file(app_resolv, app_cfg.resolv_content[0] ? app_cfg.resolv_content : "# simnet\n");
   app_write_file(app_hosts, app_cfg.hosts_content);
   if (app_cfg.hostaliases_content[0]) {
@@ -730,14 +759,18 @@ static int app_channel_init(void)
   mask |= ARES_OPT_TIMEOUTMS;
   o.tries = app_cfg.tries;
   mask |= ARES_OPT_TRIES;
-  o.ndots = app_cfg.ndots;
-  mask |= ARES_OPT_NDOTS;
-  for (i = 0; i < app_cfg.ndomains; i++) {
-    doms[i] = app_cfg.domains[i];
+  if (!app_cfg.ndots_via) {
+    o.ndots = app_cfg.ndots;
+    mask |= ARES_OPT_NDOTS;
   }
-  o.domains  = doms;
-  o.ndomains = app_cfg.ndomains;
-  mask |= ARES_OPT_DOMAINS;
+  if (!(app_cfg.domains_via && app_cfg.ndomains > 0)) {
+    for (i = 0; i < app_cfg.ndomains; i++) {
+      doms[i] = app_cfg.domains[i];
+    }
+    o.domains  = doms;
+    o.ndomains = app_cfg.ndomains;
+    mask |= ARES_OPT_DOMAINS;
+  }
   o.lookups = app_cfg.lookups;
   mask |= ARES_OPT_LOOKUPS;
   if (sim_cfg.legacy_poll == 0) {
